@@ -136,7 +136,18 @@ def analyse(cls, members, init, body, is_ctor, is_move):
     mm = re.fullmatch(r'\s*if\s*\(\s*this\s*!=\s*&other\s*\)\s*\{(.*)\}\s*return\s*\*this\s*;\s*', flat, re.S)
     if mm:
         flat = mm.group(1)
-    # re-allocations (possibly under a size test): remember their size expressions first
+    # re-allocations (possibly under a size test): remember their size expressions first.  A block guarded by a size test may
+    # contain NOTHING but re-allocations: a copy placed there would only happen when the sizes differ.
+    for bm in re.finditer(r'if\s*\(([^{}]*!=\s*other\.[^{}]*)\)\s*\{([^{}]*)\}', flat):
+        tested = set(vm.group(1) for vm in re.finditer(r'([A-Za-z_][A-Za-z_0-9]*)\s*!=\s*other\.\1', bm.group(1)))
+        for st in bm.group(2).split(';'):
+            st = re.sub(r'/\*.*?\*/', '', st, flags=re.S).strip()
+            if not st or re.fullmatch(r'[A-Za-z_][A-Za-z_0-9]*\s*=\s*std::make_unique<[A-Za-z]+\[\]>\(.*\)', st, re.S):
+                continue
+            am = re.fullmatch(r'([A-Za-z_][A-Za-z_0-9]*)\s*=\s*other\.\1', st)
+            if am and am.group(1) in tested:
+                continue          # assigning a size that was just found to differ
+            raise TranslateError("%s: statement %r is executed only when the sizes differ" % (cls, st[:70]))
     cond_vars = []
     for cm in re.finditer(r'if\s*\(([^{}]*)\)\s*\{', flat):
         for vm in re.finditer(r'([A-Za-z_][A-Za-z_0-9]*)\s*!=\s*other\.\1', cm.group(1)):
